@@ -43,7 +43,7 @@ type Cfg struct {
 	Mode     uint32 `json:"mode"`
 	Foreign  []int  `json:"foreign,omitempty"` // indices into foreignNames, planted before the first call
 	PreDir   bool   `json:"pre_dir,omitempty"` // the directory exists already (mode 0750)
-	PathVar  int    `json:"path_var,omitempty"` // how Path is spelt: 0 absolute, 1 with a trailing slash, 2 relative to the working directory, 3 nested two levels below a directory that does not exist yet, 4 below a regular file (every open must fail)
+	PathVar  int    `json:"path_var,omitempty"` // how Path is spelt: 0 absolute, 1 with a trailing slash, 2 relative to the working directory, 3 nested two levels below a directory that does not exist yet, 4 below a regular file (every open must fail), 5 under /dev/shm, 6 <tmp>/dev/null.d/logs, 7 <tmp>/x/dev/null, 8 "/dev/stdout/" (a directory path that cannot be made)
 	Format   string `json:"format,omitempty"`   // FileSink.Format: "" (defaults to JSONFormat), "json" explicitly, or another name
 	// fsize cases: the child runs with RLIMIT_FSIZE = FsizeLimit and processes FsizeEvents events
 	FsizeLimit  int `json:"fsize_limit,omitempty"`
@@ -509,10 +509,26 @@ func execSeq(c Case, root string) (res result) {
 	defer os.RemoveAll(filepath.Dir(dir))
 	dm := 0
 	top := filepath.Dir(dir)
-	blocked := c.Cfg.PathVar == 4
-	switch c.Cfg.PathVar {
+	blocked := c.Cfg.PathVar == 4 || c.Cfg.PathVar == 8
+	pathVar := c.Cfg.PathVar
+	if pathVar == 5 {
+		// a directory that really lies under /dev/ (tmpfs): an ordinary directory for the sink, whatever its path starts with
+		shm := fmt.Sprintf("/dev/shm/filesinkh-%d-%06d", os.Getpid(), c.ID)
+		if err := os.Mkdir(shm, 0o755); err == nil {
+			defer os.RemoveAll(shm)
+			dir = filepath.Join(shm, "logs")
+		} else {
+			pathVar = 0
+			res.stats["dev_shm_not_writable_path_variant_skipped"]++
+		}
+	}
+	switch pathVar {
 	case 3:
 		dir = filepath.Join(dir, "a", "b") // MkdirAll has three levels to make
+	case 6:
+		dir = filepath.Join(filepath.Dir(dir), "dev", "null.d", "logs") // contains "/dev/" and "/dev/null" without being either
+	case 7:
+		dir = filepath.Join(filepath.Dir(dir), "x", "dev", "null") // a directory that is called null, below one called dev
 	case 4:
 		if err := os.WriteFile(dir, []byte("a file where a directory is expected\n"), 0o644); err != nil {
 			panic(err)
@@ -534,7 +550,9 @@ func execSeq(c Case, root string) (res result) {
 		}
 	}
 	sinkPath := dir
-	switch c.Cfg.PathVar {
+	switch pathVar {
+	case 8:
+		sinkPath = "/dev/stdout/" // not the special path: a directory path nobody can create — every open fails, nothing is printed
 	case 1:
 		sinkPath = dir + "/"
 	case 2:
@@ -1022,6 +1040,7 @@ var fileNames = []string{"audit.log", "audit.log", "ev.json", "noext", "a.b.c", 
 	"x.tar.gz", ".log", "g.log",
 	// look-alike stems: no extension, doubled extension, other case, leading blank, a stem ending in digits / in something
 	// that looks like a stamp, a long name
+	"stdout", "null", "stderr.log", // the special paths' last elements as file names
 	"audit", "audit.log.log", "Audit.log", " audit.log", "audit2024.log", "audit-1700000000000000000.log",
 	strings.Repeat("n", 180) + ".log"}
 
@@ -1047,7 +1066,7 @@ func genCfg(r *hc.Rand, timeCases bool) Cfg {
 	if !timeCases && r.Chance(1, 20) {
 		c.MaxDurMs = -1 // != 0: stamped names; not > 0: never rotates by time
 	}
-	c.PathVar = []int{0, 0, 0, 1, 2, 3}[r.Intn(6)]
+	c.PathVar = []int{0, 0, 0, 1, 2, 3, 5, 6, 7}[r.Intn(9)]
 	c.Format = []string{"", "", "json", "cev"}[r.Intn(4)]
 	if timeCases {
 		c.MaxDurMs = 30
@@ -1079,7 +1098,7 @@ func genCfg(r *hc.Rand, timeCases bool) Cfg {
 	}
 	if r.Chance(1, 40) {
 		// a component of Path is a regular file: every open fails; judged by the oracles alone (nothing acknowledged, nothing made)
-		c.PathVar, c.Foreign, c.PreDir, c.MaxFiles = 4, nil, false, 0
+		c.PathVar, c.Foreign, c.PreDir, c.MaxFiles = []int{4, 4, 8}[r.Intn(3)], nil, false, 0
 	}
 	return c
 }
